@@ -50,7 +50,7 @@ func (o Op) String() string {
 		s += " tmpl=" + o.Tmpl
 	}
 	if o.Script != "" {
-		s += fmt.Sprintf(" script=%q", o.Script)
+		s += " script=" + scriptName(o.Script)
 	}
 	if o.DBRPs != nil {
 		s += fmt.Sprintf(" dbrps=%v", o.DBRPs)
@@ -87,6 +87,9 @@ type mTask struct {
 type mTmpl struct {
 	ID     string
 	Script string
+	// Batch: the type of the template, fixed by the script it was created with (an update
+	// does not derive it again); only the generator's prediction looks at it
+	Batch bool
 }
 
 type model struct {
@@ -238,7 +241,7 @@ func (m *model) apply(op Op) (post *model, ok bool) {
 		if _, dup := p.tmpls[op.ID]; dup || op.ID == "" || op.Script == "" {
 			return p, false
 		}
-		p.tmpls[op.ID] = &mTmpl{ID: op.ID, Script: op.Script}
+		p.tmpls[op.ID] = &mTmpl{ID: op.ID, Script: op.Script, Batch: strings.Contains(op.Script, "batch")}
 	case "tupdate":
 		tm, have := p.tmpls[op.ID]
 		if !have {
@@ -267,7 +270,9 @@ func (m *model) apply(op Op) (post *model, ok bool) {
 				t.DBRPs, t.LooseDBRPs = newD, false
 			case len(oldD) > 0:
 				// the task had no dbrps of its own: what it has now is not documented
-				t.LooseDBRPs = true
+				// (the implementation leaves it without any; the generator's shadow
+				// catalogue, which sees no responses, goes by that)
+				t.DBRPs, t.LooseDBRPs = nil, true
 			}
 			if t.Enabled {
 				// "all associated tasks are reloaded with the new template definition"
@@ -368,10 +373,16 @@ type oTask struct {
 	Error            string
 }
 
+func (t oTask) String() string {
+	return fmt.Sprintf("[%s tmpl=%q enabled=%v executing=%v dbrps=%v vars=%s script=%s error=%q]", t.ID, t.Tmpl, t.Enabled, t.Executing, t.DBRPs, fmtVars(t.Vars), scriptName(t.Script), t.Error)
+}
+
 type observed struct {
 	tasks map[string]oTask
 	tmpls map[string]string // id -> raw script
 	assoc []string
+	// ghosts: pool ids the main TaskMaster is executing although the API shows no such task
+	ghosts []string
 }
 
 type diff struct {
@@ -422,22 +433,8 @@ func sortedKeys[V any](m map[string]V) []string {
 
 // compare returns the first difference between the model and what the API (and the
 // association keys) show, nil if there is none. Differences are searched in a fixed
-// order: templates, task set, task fields, associations.
+// order: task set, task fields, templates, associations.
 func (m *model) compare(o *observed, withAssoc bool) *diff {
-	for _, id := range sortedKeys(m.tmpls) {
-		s, ok := o.tmpls[id]
-		if !ok {
-			return &diff{"tmpl-missing", id, "template is not shown by the API"}
-		}
-		if s != m.tmpls[id].Script {
-			return &diff{"tmpl-script", id, fmt.Sprintf("script %q, want %q", s, m.tmpls[id].Script)}
-		}
-	}
-	for _, id := range sortedKeys(o.tmpls) {
-		if _, ok := m.tmpls[id]; !ok {
-			return &diff{"tmpl-unexpected", id, fmt.Sprintf("API shows a template that was not defined (script %q)", o.tmpls[id])}
-		}
-	}
 	for _, id := range sortedKeys(m.tasks) {
 		if _, ok := o.tasks[id]; !ok {
 			return &diff{"task-missing", id, "task is not shown by the API"}
@@ -446,14 +443,14 @@ func (m *model) compare(o *observed, withAssoc bool) *diff {
 	for _, id := range sortedKeys(o.tasks) {
 		if _, ok := m.tasks[id]; !ok {
 			t := o.tasks[id]
-			return &diff{"task-unexpected", id, fmt.Sprintf("API shows a task that was not defined: %+v", t)}
+			return &diff{"task-unexpected", id, fmt.Sprintf("API shows a task that was not defined: %s", t)}
 		}
 	}
 	for _, id := range sortedKeys(m.tasks) {
 		w, g := m.tasks[id], o.tasks[id]
 		switch {
 		case g.Script != w.Script:
-			return &diff{"task-script", id, fmt.Sprintf("script %q, want %q", g.Script, w.Script)}
+			return &diff{"task-script", id, fmt.Sprintf("script %s, want %s", scriptName(g.Script), scriptName(w.Script))}
 		case g.Tmpl != w.Tmpl:
 			return &diff{"task-template", id, fmt.Sprintf("template-id %q, want %q", g.Tmpl, w.Tmpl)}
 		case !w.LooseDBRPs && !sameDBRPs(g.DBRPs, w.DBRPs):
@@ -462,6 +459,20 @@ func (m *model) compare(o *observed, withAssoc bool) *diff {
 			return &diff{"task-vars", id, fmt.Sprintf("vars %s, want %s", fmtVars(g.Vars), fmtVars(w.Vars))}
 		case g.Enabled != w.Enabled:
 			return &diff{"task-status", id, fmt.Sprintf("enabled=%v, want %v", g.Enabled, w.Enabled)}
+		}
+	}
+	for _, id := range sortedKeys(m.tmpls) {
+		s, ok := o.tmpls[id]
+		if !ok {
+			return &diff{"tmpl-missing", id, "template is not shown by the API"}
+		}
+		if s != m.tmpls[id].Script {
+			return &diff{"tmpl-script", id, fmt.Sprintf("script %s, want %s", scriptName(s), scriptName(m.tmpls[id].Script))}
+		}
+	}
+	for _, id := range sortedKeys(o.tmpls) {
+		if _, ok := m.tmpls[id]; !ok {
+			return &diff{"tmpl-unexpected", id, fmt.Sprintf("API shows a template that was not defined (script %s)", scriptName(o.tmpls[id]))}
 		}
 	}
 	if withAssoc {
@@ -502,27 +513,38 @@ func (m *model) adoptLoose(o *observed) {
 
 // checkExecuting: a task is executing iff it is enabled and its start succeeded.
 func (m *model) checkExecuting(o *observed) *diff {
+	if len(o.ghosts) > 0 {
+		return &diff{"executing-without-definition", o.ghosts[0], fmt.Sprintf("the task master executes %v but the API shows no such task (a task created under that id later is shown executing without having been started)", o.ghosts)}
+	}
 	for _, id := range sortedKeys(m.tasks) {
-		w, g := m.tasks[id], o.tasks[id]
-		if !w.Enabled {
-			if g.Executing {
-				return &diff{"executing", id, "task is disabled but shown executing"}
-			}
-			continue
+		if d := m.tasks[id].checkExecuting(o); d != nil {
+			return d
 		}
-		cls := w.runClass(o)
-		switch cls {
-		case clsStarts:
-			if !g.Executing {
-				return &diff{"executing", id, fmt.Sprintf("task is enabled, starting it succeeds (class %s, running script %q), but it is not executing; error=%q", cls, w.RunScript, g.Error)}
-			}
-		default:
-			if g.Executing {
-				return &diff{"executing", id, fmt.Sprintf("task (class %s) cannot have started but is shown executing (enabled=%v)", cls, w.Enabled)}
-			}
-			if w.Enabled && g.Error == "" {
-				return &diff{"start-error-lost", id, fmt.Sprintf("task (class %s) is enabled and not executing but no error is recorded", cls)}
-			}
+	}
+	return nil
+}
+
+func (w *mTask) checkExecuting(o *observed) *diff {
+	id := w.ID
+	g := o.tasks[id]
+	if !w.Enabled {
+		if g.Executing {
+			return &diff{"executing", id, "task is disabled but shown executing"}
+		}
+		return nil
+	}
+	cls := w.runClass(o)
+	switch cls {
+	case clsStarts:
+		if !g.Executing {
+			return &diff{"executing", id, fmt.Sprintf("task is enabled, starting it succeeds (class %s, running script %s), but it is not executing; error=%q", cls, scriptName(w.RunScript), g.Error)}
+		}
+	default:
+		if g.Executing {
+			return &diff{"executing", id, fmt.Sprintf("task (class %s, last started with script %s dbrps %v) cannot have started but is shown executing", cls, scriptName(w.RunScript), w.RunDBRPs)}
+		}
+		if g.Error == "" {
+			return &diff{"start-error-lost", id, fmt.Sprintf("task (class %s) is enabled and not executing but no error is recorded", cls)}
 		}
 	}
 	return nil
